@@ -103,14 +103,14 @@ func rlkLeaf(c *engine.Chooser, name string, k cfg) {
 			Flat: flat(tag),
 		}
 	}
-	agg1, ok := foldOrMerge(c, ops(1), r1, k.search(), k.proto == "rlk1")
+	agg1, ok := mp.FoldOrMerge(c, ops(1), r1, k.search(), k.proto == "rlk1")
 	if !ok {
 		return
 	}
 	for i := range protos {
 		protos[i].GenShareRoundTwo(eph[i], P.SK[i], agg1, &r2[i])
 	}
-	agg2, ok := foldOrMerge(c, ops(2), r2, k.search(), k.proto == "rlk2")
+	agg2, ok := mp.FoldOrMerge(c, ops(2), r2, k.search(), k.proto == "rlk2")
 	if !ok {
 		return
 	}
@@ -163,28 +163,4 @@ func rlkLeaf(c *engine.Chooser, name string, k cfg) {
 		c.Fail(sig+"/use/not-a-key-of-the-ideal-secret", "Relinearize at level %d: |phase - m| = %v > bound %v (%d parties); the single-party key for the ideal secret is within the bound", lvl, noise, bound, k.n)
 		return
 	}
-}
-
-// foldOrMerge searches the lattice (search=true) or folds the shares in index order with the
-// implementation's AggregateShares, still checked against the reference sum.
-func foldOrMerge[T any](c *engine.Chooser, ops mp.Ops[T], shares []T, s mp.Search, search bool) (T, bool) {
-	if search {
-		return mp.Merge(c, ops, shares, s)
-	}
-	want := mp.CloneFlat(mp.ReferenceSum(ops, shares))
-	acc := shares[0]
-	for i := 1; i < len(shares); i++ {
-		out := ops.New()
-		err, pan := uni.Try(func() error { return ops.Agg(acc, shares[i], &out) })
-		if err != nil || pan != nil {
-			c.Fail(ops.Sig+"/AggregateShares/panic", "index-order fold: err=%v panic=%v", err, pan)
-			return acc, false
-		}
-		acc = out
-	}
-	if same, why := ops.Flat(acc).Equal(want); !same {
-		c.Fail(ops.Sig+"/AggregateShares/not-the-sum", "index-order fold differs from the coefficient-wise sum: %s", why)
-		return acc, false
-	}
-	return acc, true
 }
